@@ -4,6 +4,7 @@ package props
 
 import (
 	"fmt"
+	"hash/fnv"
 	"math/rand"
 	"regexp"
 	"runtime"
@@ -288,14 +289,44 @@ func runRMCase(c *rmCase) (fault string, faultSig string) {
 	// the processor
 	proc := engine.NewProcessor(c.Workers)
 	proc.ThreadPool().TooManyCallback = func() {}
-	for _, r := range c.goRules(fired) {
+	scope := c.goScope()
+	prules := c.goRules(fired)
+	if h := fnv.New32a(); len(prules) >= 2 {
+		// rules can be added between two runs of a processor: every second case gets the first half of its rules, runs
+		// all its events (these observations are not recorded), is stopped, gets the rest of the rules and is started
+		// again - what was learned about the kinds of the events in the first run must not outlive the new rules
+		h.Write([]byte(c.ID))
+		if h.Sum32()%2 == 0 {
+			half := len(prules) / 2
+			for _, r := range prules[:half] {
+				if err := proc.AddRule(r); err != nil {
+					return "Processor.AddRule: " + err.Error(), "C01 AddRule error"
+				}
+			}
+			prules = prules[half:]
+			proc.Start()
+			for k := range c.Events {
+				e := &c.Events[k]
+				pm, hung := guarded(20*time.Second, func() {
+					proc.AddEventAndWait(e.goEvent(), proc.NewRootMonitor(nil, scope))
+				})
+				if pm != "" {
+					return fmt.Sprintf("AddEventAndWait panicked on event %d (first run, half of the rules): %s", k, pm), "C01 fault AddEventAndWait"
+				}
+				if hung != "" {
+					return fmt.Sprintf("AddEventAndWait does not return on event %d (first run, half of the rules): %s", k, hung), "C01 hang AddEventAndWait"
+				}
+			}
+			proc.Finish()
+		}
+	}
+	for _, r := range prules {
 		if err := proc.AddRule(r); err != nil {
 			return "Processor.AddRule: " + err.Error(), "C01 AddRule error"
 		}
 	}
 	proc.Start()
 	defer proc.Finish()
-	scope := c.goScope()
 	for k := range c.Events {
 		e := &c.Events[k]
 		mu.Lock()
@@ -835,8 +866,13 @@ func c01Model(r *ev.Run) bool {
 	jobs := []*MCJob{
 		{Name: "RuleIndex/code", Opt: tlc.Options{Module: "MCRuleIndex", Config: "RuleIndex_code.cfg", Timeout: 20 * time.Minute, Workers: 8}},
 		{Name: "RuleIndex/found", Opt: tlc.Options{Module: "MCRuleIndex", Config: "RuleIndex_found.cfg", Timeout: 10 * time.Minute, Workers: 4}},
+		{Name: "RuleIndex/stale-cache", Opt: tlc.Options{Module: "MCRuleIndex", Config: "RuleIndex_stale.cfg", Timeout: 10 * time.Minute, Workers: 4}},
 	}
-	if !runMCParallel(r, jobs, 2) {
+	if !runMCParallel(r, jobs, 3) {
+		return false
+	}
+	if jobs[2].Res.Violated == "" {
+		r.Inconclusive("self-test: TLC did not refute the cache which outlives added rules: " + jobs[2].Res.Describe())
 		return false
 	}
 	if !jobs[0].Res.OK {
